@@ -127,9 +127,7 @@ Proof.
   apply safe3_bind. eapply safe3_get_conn; [exact (inv_heap _ _ I)|exact Hc|].
   apply safe3_bind. apply safe3_peek. apply safe3_bind. apply safe3_peek2.
   rewrite (fx_connread_true cf Hfix).
-  assert (Leave : safe3 (store co (CConn (set_c_reading false c));; ret rq) s (fun _ s' => pot s' <= pot s)).
-  { apply safe3_bind. eapply safe3_store; [exact (inv_heap _ _ I)|exact Hc|].
-    apply safe3_ret. rewrite (pot_store_unlinked None s co (CConn c) (CConn (set_c_reading false c)) I Hc Logic.I Logic.I (conn_unlinked' _ _ _ _ I Hc)). lia. }
+  assert (Leave : safe3 (ret rq) s (fun _ s' => pot s' <= pot s)) by (apply safe3_ret; lia).
   destruct (hd_error (st_tape s)) as [e|]; [|exact Leave].
   destruct e; try exact Leave.
   - destruct (negb (Nat.eqb sock (c_sock c))); [exact Leave|].
@@ -146,21 +144,14 @@ Proof.
     intros rq' s2 [[[I2 St2] [c2 [Hc2 Hrd2]]] P2]. unfold ppost in P2.
     apply safe3_bind. eapply safe3_get_conn; [exact (inv_heap _ _ I2)|exact Hc2|].
     destruct (c_closed c2) eqn:Ecl.
-    + apply safe3_bind. eapply safe3_free; [exact (inv_heap _ _ I2)|exact Hc2|].
-      apply safe3_ret. rewrite (pot_free None s2 co (CConn c2) I2 Hc2 Logic.I (conn_unlinked' _ _ _ _ I2 Hc2)). fuel.
+    + apply safe3_ret. fuel.
     + eapply safe3_mono; [apply IHn; [split; auto|exists c2; auto|fuel|fuel]|].
       intros z s3 P3. simpl in P3. fuel.
   - destruct (hd_error (tl (st_tape s))) as [e2|]; [|exact Leave].
     destruct e2; try exact Leave.
     destruct (negb (Nat.eqb sock (c_sock c))); [exact Leave|].
-    apply safe3_bind. eapply safe3_store; [exact (inv_heap _ _ I)|exact Hc|].
-    destruct (store_conn_flags_ok None s co c (set_c_reading false c) I Hc eq_refl eq_refl) as [I1 [_ [_ [_ Hc1]]]].
-    { simpl. intros H. exact (inv_closed _ _ I _ _ Hc H). }
-    { simpl. intros H. destruct (inv_conns _ _ I) as [_ Hcc]. destruct (Hcc _ H) as [c0 [Hc0 Hcl]].
-      rewrite Hc in Hc0. inversion Hc0; subst. exact Hcl. }
-    pose proof (pot_store_unlinked None s co (CConn c) (CConn (set_c_reading false c)) I Hc Logic.I Logic.I (conn_unlinked' _ _ _ _ I Hc)) as P1.
     apply safe3_bind.
-    eapply safe3_mono; [apply (fp_handle_conn_error _ _ IH3 co true st _ _ I1 Hc1); fuel|].
+    eapply safe3_mono; [apply (fp_handle_conn_error _ _ IH3 co true st _ _ I Hc); fuel|].
     intros [] s2 P2. unfold fpost in P2. apply safe3_ret. fuel.
 Qed.
 
@@ -180,6 +171,18 @@ Proof.
   - apply safe3_ret. apply IHr; auto. split; auto.
 Qed.
 
+Lemma read_done_fuel s co : Inv2 s -> reading s co ->
+  safe3 (let! c := get_conn co in if c_closed c then free_obj co else store co (CConn (set_c_reading false c))) s (ppost s).
+Proof.
+  intros [I St] [c [Hc Hrd]]. unfold ppost.
+  apply safe3_bind. eapply safe3_get_conn; [exact (inv_heap _ _ I)|exact Hc|].
+  destruct (c_closed c).
+  - eapply safe3_free; [exact (inv_heap _ _ I)|exact Hc|].
+    rewrite (pot_free None s co (CConn c) I Hc Logic.I (conn_unlinked' _ _ _ _ I Hc)). lia.
+  - eapply safe3_store; [exact (inv_heap _ _ I)|exact Hc|].
+    rewrite (pot_store_unlinked None s co (CConn c) (CConn (set_c_reading false c)) I Hc Logic.I Logic.I (conn_unlinked' _ _ _ _ I Hc)). lia.
+Qed.
+
 Lemma read_answers_fuel f co s c : Inv2 s -> cell_of s co = Some (CConn c) -> In co (st_conns s) -> need (pot s) 6 <= f ->
   safe3 (read_answers cf f co) s (ipost s).
 Proof.
@@ -196,9 +199,12 @@ Proof.
   { exists (set_c_reading true c). split; auto. }
   apply safe3_bind.
   eapply safe3_mono; [apply safe3_with; [apply (read_loop_ok cf Hfix f f co [] _ I1 R1)|apply (read_loop_fuel f f co [] _ I1 R1); fuel]|].
-  intros rq s2 [I2 P2]. unfold ppost in P2.
-  eapply safe3_mono; [apply (flush_requeue_fuel f rq s2 I2); fuel|].
-  intros [] s3 [I3 P3]. split; auto. lia.
+  intros rq s2 [[I2 R2] P2]. unfold ppost in P2.
+  apply safe3_bind.
+  eapply safe3_mono; [apply safe3_with; [apply (flush_requeue_reading cf Hfix f rq co s2 I2 R2)|apply (flush_requeue_fuel f rq s2 I2); fuel]|].
+  intros [] s3 [[I3 R3] [_ P3]].
+  eapply safe3_mono; [apply safe3_with; [apply (read_done_ok s3 co I3 R3)|apply (read_done_fuel s3 co I3 R3)]|].
+  intros [] s4 [I4 P4]. unfold ppost in P4. split; auto. lia.
 Qed.
 
 Lemma destroy_loop_fuel f n : forall s, Inv2 s -> need (pot s) 1 <= f -> pot s < n ->
@@ -442,4 +448,31 @@ Proof.
              (if destroyed then ret tt else step cf fuel IDestroy final);; emit EvEnd) (init_state cf))
     as [[a s']|e|k']; try discriminate.
   inversion Hrun; subst. apply S. reflexivity.
+Qed.
+
+(* the same number computed without deep recursion (the extracted naturals are unary and the
+   driver's histories are long) *)
+Fixpoint tlen {A} (l : list A) (acc : nat) : nat := match l with [] => acc | _ :: r => tlen r (S acc) end.
+Definition hist_size_tr (h : list (input * list tev)) : nat :=
+  fold_left (fun acc it => Nat.tail_add (Nat.tail_add (Nat.tail_mul wT (tlen (snd it) 0)) (input_size (fst it))) acc) h 0.
+Definition fuel_bound_tr (h : list (input * list tev)) (final : list tev) : nat :=
+  Nat.tail_add (Nat.tail_mul K (Nat.tail_add (hist_size_tr h) (Nat.tail_mul wT (tlen final 0)))) 10.
+
+Lemma tlen_spec {A} (l : list A) : forall acc, tlen l acc = length l + acc.
+Proof. induction l as [|a l IH]; intros acc; simpl; [reflexivity|]. rewrite IH. lia. Qed.
+
+Lemma hist_size_tr_eq h : hist_size_tr h = hist_size h.
+Proof.
+  unfold hist_size_tr, hist_size.
+  assert (G : forall acc, fold_left (fun acc it => Nat.tail_add (Nat.tail_add (Nat.tail_mul wT (tlen (snd it) 0)) (input_size (fst it))) acc) h acc
+                          = acc + list_sum (map (fun it => wT * length (snd it) + input_size (fst it)) h)).
+  { induction h as [|it h IH]; intros acc; [simpl; lia|].
+    cbn [fold_left map]. change (list_sum (?a :: ?l)) with (a + list_sum l).
+    rewrite IH. rewrite !Nat.tail_add_spec, Nat.tail_mul_spec, tlen_spec. unfold wT. lia. }
+  rewrite G. reflexivity.
+Qed.
+
+Lemma fuel_bound_tr_eq h final : fuel_bound_tr h final = fuel_bound h final.
+Proof.
+  unfold fuel_bound_tr, fuel_bound. rewrite !Nat.tail_add_spec, !Nat.tail_mul_spec, hist_size_tr_eq, tlen_spec. unfold K, wT. lia.
 Qed.
